@@ -131,6 +131,18 @@ let puml_mode () =
         (int_of_nat (count_transitions s))
     done with End_of_file -> ())
 
+let guard_mode () =
+  (* one input line = one PlantUML transition line; output: the guard tree the library builds for it *)
+  (try while true do
+      let line = input_line stdin in
+      let t = parse_row (str_of_string line) in
+      (match t.t_guard with
+       | [] -> print_string "none\n"
+       | g -> (match parse_guard g with
+           | Some x -> print_endline (string_of_str (gshow x))
+           | None -> print_endline "NONE"))
+    done with End_of_file -> ())
+
 let store_mode () =
   (* input: "TYPE name size align nothrow trivial" lines, then operations; output mirrors store_probe *)
   let types = ref [] in
@@ -164,6 +176,7 @@ let store_mode () =
 
 let () =
   if Sys.argv.(1) = "puml" then (puml_mode (); exit 0);
+  if Sys.argv.(1) = "guard" then (guard_mode (); exit 0);
   if Sys.argv.(1) = "store" then (store_mode (); exit 0);
   if Sys.argv.(1) = "ids" then begin
     (match parse (read_all stdin) with
